@@ -83,7 +83,23 @@ def empties_world():
     }
 
 
-EXTRA = {'lazy': lazy_world, 'mem': mem_world, 'shared': shared_world, 'empties': empties_world}
+def owndata_world():
+    """a task that returns a data object of its own class (constructor with an optional argument), between two ordinary ones"""
+    P, bc = families.P, families.by_class
+    return {
+        'name': 'owndata',
+        'tasks': {
+            'A': {'params': [P('pa', default=0)], 'inputs': [], 'data': 'json'},
+            'T': {'params': [], 'inputs': [bc('A')], 'data': 'json_titled'},
+            'C': {'params': [], 'inputs': [bc('T')], 'data': 'json'},
+        },
+        'configs': {'root': {'medium': 'json', 'tasks': ['A', 'T', 'C'], 'values': {}}},
+        'root': 'root',
+        'variants': {'v0': [], 'v1': [[['configs', 'root', 'values', 'pa'], 1]]},
+    }
+
+
+EXTRA = {'owndata': owndata_world, 'lazy': lazy_world, 'mem': mem_world, 'shared': shared_world, 'empties': empties_world}
 
 
 # name mode: the second config's name merely extends the first one's (exp_big) or is a name the library gives to its own
@@ -204,8 +220,79 @@ def _unreadable_result_scenario():
     return out
 
 
-QUICK = ['chain3', 'mount2', 'lazy', 'mem', 'empties']
-ALL = ['chain3', 'diamond', 'mount2', 'optpat', 'lazy', 'mem', 'shared', 'uses2', 'empties']
+def _needs_arg_scenario():
+    """a task whose data class can be created ONLY inside run (its constructor requires an argument): the library cannot inspect such a
+    result from outside (the pinned code raises TypeError) - whatever an inspection call answers, it never runs anything"""
+    from pathlib import Path
+    from taskchain import Config, Task
+    from taskchain.data import JSONData
+
+    runs = []
+
+    class Table(JSONData):
+        DATA_TYPES = []
+
+        def __init__(self, title):
+            super().__init__()
+            self.title = title
+
+    class Numbers(Task):
+        def run(self) -> list:
+            runs.append('numbers')
+            return [1, 2]
+
+    class Tab(Task):
+        class Meta:
+            input_tasks = [Numbers]
+
+        def run(self, numbers) -> Table:
+            runs.append('tab')
+            t = Table('t')
+            t.set_value({'n': numbers})
+            return t
+
+    class Summary(Task):
+        class Meta:
+            input_tasks = [Tab]
+
+        def run(self, tab) -> dict:
+            runs.append('summary')
+            return {'s': tab}
+
+    out = []
+    root = scratch.fresh('c04n')
+    try:
+        for computed_before in (False, True):
+            del runs[:]
+            if computed_before:
+                Config(Path(root) / 'data', name='c', data={'tasks': [Numbers, Tab, Summary]}).chain()['summary'].value
+                del runs[:]
+            ch = Config(Path(root) / 'data', name='c', data={'tasks': [Numbers, Tab, Summary]}).chain()
+            answers = {}
+            for name, t in ch.tasks.items():
+                for what in ('has_data', 'data_path', 'run_info', 'log', 'is_forced'):
+                    try:
+                        answers[(name, what)] = 'ok' if getattr(t, what) is not None or True else None
+                    except Exception as e:  # noqa
+                        answers[(name, what)] = type(e).__name__
+            for what in ('tasks_df', 'create_readable_filenames'):
+                try:
+                    v = getattr(ch, what)
+                    if callable(v):
+                        v()
+                except Exception as e:  # noqa
+                    answers[('chain', what)] = type(e).__name__
+            if runs:
+                out.append(Violation('needs-arg: inspection executed run()',
+                                     f'pipeline numbers -> tab (data class whose constructor requires an argument) -> summary, results {"stored" if computed_before else "missing"}: '
+                                     f'has_data / data_path / run_info / log / tasks_df / readable links ran {runs}', {'kind': 'needs-arg'}))
+    finally:
+        scratch.drop(root)
+    return out
+
+
+QUICK = ['chain3', 'mount2', 'lazy', 'mem', 'empties', 'owndata']
+ALL = ['chain3', 'diamond', 'mount2', 'optpat', 'lazy', 'mem', 'shared', 'uses2', 'empties', 'owndata']
 
 
 def plan(tier):
@@ -259,7 +346,8 @@ def run(tier, seed):
         res.violations.extend(r.violations)
     res.merge(_namemode_templates())
     res.violations.extend(_unreadable_result_scenario())
-    res.add('evaluations')
+    res.violations.extend(_needs_arg_scenario())
+    res.add('evaluations', 2)
     # a task registry that outlives a chain (what MultiChain does, spread over time): the in-memory task shared by the chains runs once
     from tcv.checks import c13
     for sig, what in c13.namespace_scenarios():
@@ -282,6 +370,8 @@ def replay(case):
     tcv.quiet_library()
     if case.get('kind') == 'unreadable':
         return _unreadable_result_scenario()
+    if case.get('kind') == 'needs-arg':
+        return _needs_arg_scenario()
     if case.get('kind') == 'registry':
         from tcv.checks import c13
         from tcv.core import Violation as V
